@@ -271,6 +271,11 @@ class Machine:
                 if f3 == 3: s.wx(rdp, s.load(ea, 8)); dis('ld %s, %s(%s)' % (XN[rdp], u if is_c(u) else '?', XN[rs1p]))
                 else: s.store(ea, s.rx(rdp), 8); dis('sd %s, %s(%s)' % (XN[rdp], u if is_c(u) else '?', XN[rs1p]))
                 return None
+            if f3 in (1, 5):
+                u = cat([(SF(6, 5), 2), (SF(12, 10), 3), (0, 3)]); ea = s.padd(s.rx(rs1p), u if is_c(u) else z3.ZeroExt(56, u))
+                if f3 == 1: s.wf(rdp, s.load(ea, 8)); dis('fld %s, %s(%s)' % (FN[rdp], u if is_c(u) else '?', XN[rs1p]))
+                else: s.store(ea, s.rf(rdp), 8); dis('fsd %s, %s(%s)' % (FN[rdp], u if is_c(u) else '?', XN[rs1p]))
+                return None
             raise Undecodable('C quadrant 0 funct3 %d' % f3)
         if q == 1:
             rd = F(11, 7); imm6 = cat([(SF(12, 12), 1), (SF(6, 2), 5)])
@@ -328,6 +333,14 @@ class Machine:
                 u = cat([(SF(9, 7), 3), (SF(12, 10), 3), (0, 3)])
                 if not is_c(u): raise Undecodable('symbolic c.sdsp')
                 s.store(s.padd(s.rx(2), u), s.rx(rs2), 8); dis('sd %s, %d(sp)' % (XN[rs2], u)); return None
+            if f3 == 1:
+                u = cat([(SF(4, 2), 3), (SF(12, 12), 1), (SF(6, 5), 2), (0, 3)])
+                if not is_c(u): raise Undecodable('symbolic c.fldsp')
+                s.wf(rd, s.load(s.padd(s.rx(2), u), 8)); dis('fld %s, %d(sp)' % (FN[rd], u)); return None
+            if f3 == 5:
+                u = cat([(SF(9, 7), 3), (SF(12, 10), 3), (0, 3)])
+                if not is_c(u): raise Undecodable('symbolic c.fsdsp')
+                s.store(s.padd(s.rx(2), u), s.rf(rs2), 8); dis('fsd %s, %d(sp)' % (FN[rs2], u)); return None
             raise Undecodable('C quadrant 2 funct3 %d' % f3)
         raise Undecodable('RV64 halfword')
     def run(s, start, stop=None, max_steps=2000):
